@@ -137,6 +137,31 @@ def execute_cases(ctx):
                 stats["executes"] += 1
             finally:
                 shutil.rmtree(logdir, ignore_errors=True); shutil.rmtree(outdir, ignore_errors=True)
+    # two algorithms OF ONE CLASS (two configurations of one optimizer benchmarked against each other - the usual use): each keeps its own designated modes
+    # (told apart in the call log by their configurations; the export layout of same-class algorithms is not part of this scenario)
+    for m, shape in (((1, "algo"), (2, "algo"), (2, "pair")) if not ctx.quick else ((2, r.choice(["algo", "pair"])),)):
+        n = 2
+        modes = ("serial", "thread") if shape == "algo" else tuple(["serial"] * m + ["thread"] * m)
+        logdir = tempfile.mkdtemp(prefix="pv-c20-", dir="/var/tmp")
+        meta = {"n": n, "m": m, "modes": modes, "n_trials": 1, "same_class": True}
+        try:
+            algos = tuple(TableOptimizer(TableConfig(a=i + 1), table={}, logdir=logdir) for i in range(n))
+            tasks = tuple(task_cls[j](variables=[ContinuousMultiVariable(name="x", lower_bounds=[-1.0], upper_bounds=[1.0])]) for j in range(m))
+            try:
+                with quiet(): Multitask(algos, tasks, modes=modes, n_workers=2).execute(n_trials=1, n_jobs=2)
+            except Exception as ex_:
+                ctx.violation(f"execute:raises {type(ex_).__name__}", f"Multitask with two algorithms of one class, m={m}, modes={modes!r} raises {type(ex_).__name__}: {str(ex_)[:100]}", meta); continue
+            from collections import Counter
+            got = Counter((c["key"], c["task"], c["mode"]) for c in read_call_log(logdir))
+            want = designated(n, m, modes)
+            exp = Counter()
+            for i in range(n):
+                for j in range(m): exp[(f"{i + 1},0,0", tasks[j].name, want[i][j])] += 1
+            if got != exp:
+                ctx.violation("execute:plan/modes (same-class algorithms)", f"Multitask(two configurations of one optimizer class, m={m}, modes={modes!r}): runs {dict(got)}, designated {dict(exp)}", meta)
+            stats["executes"] += 1
+        finally:
+            shutil.rmtree(logdir, ignore_errors=True)
     return stats
 
 
